@@ -152,7 +152,7 @@ func (ls *LinesearchMethod) initNextLinesearch(loc *Location) (Operation, error)
 	}
 
 	projGrad := floats.Dot(loc.Gradient, ls.dir)
-	if projGrad >= 0 {
+	if !(projGrad < 0) {
 		return ls.error(ErrNonDescentDirection)
 	}
 
